@@ -4,6 +4,7 @@ package main
 
 import (
 	"fmt"
+	"strings"
 	"go/types"
 	"sort"
 
@@ -102,6 +103,40 @@ func (c *Ctx) heapInit(key, sort string) T {
 	c.heapSort[key] = sort
 	c.sc.declare(name, sort)
 	return name
+}
+
+// noteRef: type invariants of heap arrays in the entry state of the function
+// under verification: every stored reference is allocated, every stored
+// integer is in the range of its Go type, slice headers are well-formed.
+func (c *Ctx) noteRef(key, sort string, l Leaf) {
+	if c.factsDone["leafkey:"+key] {
+		return
+	}
+	c.factsDone["leafkey:"+key] = true
+	c.keyLeaf[key] = l
+	switch l.Kind {
+	case lkRef, lkSlRef, lkIfRef:
+		c.factsDone["refkey:"+key] = true
+	}
+	h := c.heapInit(key, sort)
+	if c.entryTop == "" {
+		return
+	}
+	_, inner := innerSort(sort)
+	if strings.HasPrefix(inner, "(Array") {
+		ks, _ := innerSort(inner)
+		x := "(select (select " + h + " r) i)"
+		f := c.leafFact(l, x, c.entryTop)
+		if f != "true" {
+			c.sc.assume(fmt.Sprintf("(forall ((r Int) (i %s)) (! %s :pattern (%s)))", ks, f, x))
+		}
+	} else {
+		x := "(select " + h + " r)"
+		f := c.leafFact(l, x, c.entryTop)
+		if f != "true" {
+			c.sc.assume(fmt.Sprintf("(forall ((r Int)) (! %s :pattern (%s)))", f, x))
+		}
+	}
 }
 
 func (c *Ctx) heapSet(st *State, key, sort string, t T) {
@@ -248,6 +283,7 @@ func (c *Ctx) loadField(st *State, structT types.Type, f *types.Var, ref T) Val 
 	v := Val{Typ: f.Type(), L: make([]T, len(ls))}
 	for i, l := range ls {
 		key := fieldKey(structT, f.Name(), l.Suffix)
+		c.noteRef(key, arr(sInt, l.Sort), l)
 		v.L[i] = sel(c.heapGet(st, key, arr(sInt, l.Sort)), ref)
 	}
 	return v
@@ -284,6 +320,7 @@ func (c *Ctx) loadElem(st *State, elemT types.Type, ref, idx T) Val {
 	v := Val{Typ: elemT, L: make([]T, len(ls))}
 	for i, l := range ls {
 		key := elemKey(elemT, l.Suffix)
+		c.noteRef(key, arr(sInt, arr(sInt, l.Sort)), l)
 		v.L[i] = sel(sel(c.heapGet(st, key, arr(sInt, arr(sInt, l.Sort))), ref), idx)
 	}
 	return v
@@ -328,6 +365,7 @@ func (c *Ctx) loadBox(st *State, t types.Type, ref T) Val {
 	v := Val{Typ: t, L: make([]T, len(ls))}
 	for i, l := range ls {
 		key := boxKey(t, l.Suffix)
+		c.noteRef(key, arr(sInt, l.Sort), l)
 		v.L[i] = sel(c.heapGet(st, key, arr(sInt, l.Sort)), ref)
 	}
 	return v
@@ -365,12 +403,41 @@ func (c *Ctx) mapGet(st *State, m *types.Map, ref, k T) Val {
 	ks := keySortOfMap(m)
 	for i, l := range ls {
 		key := mapValKey(m, l.Suffix)
+		c.noteRef(key, arr(sInt, arr(ks, l.Sort)), l)
 		v.L[i] = sel(sel(c.heapGet(st, key, arr(sInt, arr(ks, l.Sort))), ref), k)
 	}
 	return v
 }
 
+// msumFact: generator-instantiated update lemma for the per-map byte sum
+// msum(dom, val) = sum over k in dom of slen(val[k]) (string-valued maps).
+func (c *Ctx) msumApplies(m *types.Map) bool {
+	return keySortOfMap(m) == sStr && isString(m.Elem())
+}
+
+func (c *Ctx) declMsum() {
+	c.sc.declareFun("msum", []string{arr(sStr, sBool), arr(sStr, sStr)}, sInt)
+}
+
+func (c *Ctx) msumOf(st *State, m *types.Map, ref T) T {
+	c.declMsum()
+	d := c.mapDom(st, m, ref)
+	v := sel(c.heapGet(st, mapValKey(m, ""), arr(sInt, arr(sStr, sStr))), ref)
+	t := app("msum", d, v)
+	c.onceFact("msum>=0:"+t, ge(t, "0"))
+	return t
+}
+
 func (c *Ctx) mapSet(st *State, m *types.Map, ref, k T, v Val) {
+	if c.msumApplies(m) {
+		c.declMsum()
+		d0 := c.sc.def("md0", arr(sStr, sBool), c.mapDom(st, m, ref))
+		v0 := c.sc.def("mv0", arr(sStr, sStr), sel(c.heapGet(st, mapValKey(m, ""), arr(sInt, arr(sStr, sStr))), ref))
+		m0 := app("msum", d0, v0)
+		m1 := app("msum", sto(d0, k, "true"), sto(v0, k, v.L[0]))
+		c.sc.assume(and(eq(m1, add(sub(m0, ite(sel(d0, k), app("slen", sel(v0, k)), "0")), app("slen", v.L[0]))), ge(m0, "0"), ge(m1, "0"),
+			ge(m0, ite(sel(d0, k), app("slen", sel(v0, k)), "0")), ge(m1, app("slen", v.L[0]))))
+	}
 	ks := keySortOfMap(m)
 	dk := mapDomKey(m)
 	ds := arr(sInt, arr(ks, sBool))
@@ -385,7 +452,20 @@ func (c *Ctx) mapSet(st *State, m *types.Map, ref, k T, v Val) {
 	}
 }
 
+func (c *Ctx) msumDeleteFact(st *State, m *types.Map, ref, k T) {
+	if !c.msumApplies(m) {
+		return
+	}
+	c.declMsum()
+	d0 := c.sc.def("md0", arr(sStr, sBool), c.mapDom(st, m, ref))
+	v0 := c.sc.def("mv0", arr(sStr, sStr), sel(c.heapGet(st, mapValKey(m, ""), arr(sInt, arr(sStr, sStr))), ref))
+	m0 := app("msum", d0, v0)
+	m1 := app("msum", sto(d0, k, "false"), v0)
+	c.sc.assume(and(eq(m1, sub(m0, ite(sel(d0, k), app("slen", sel(v0, k)), "0"))), ge(m0, "0"), ge(m1, "0")))
+}
+
 func (c *Ctx) mapDelete(st *State, m *types.Map, ref, k T) {
+	c.msumDeleteFact(st, m, ref, k)
 	ks := keySortOfMap(m)
 	dk := mapDomKey(m)
 	ds := arr(sInt, arr(ks, sBool))
